@@ -14,8 +14,10 @@ package c18
 import (
 	"encoding/json"
 	"fmt"
+	"hash/fnv"
 	"reflect"
 	"sort"
+	"strconv"
 	"strings"
 
 	cb "github.com/alibaba/sentinel-golang/core/circuitbreaker"
@@ -36,6 +38,7 @@ type mod struct {
 	Name string
 	// payloads
 	P1, P2, P2b string // valid arrays with 1 / 2 / 2 (other) rules, in the module's wire format
+	P1v         string // P1 with one inconspicuous field changed (same ids): still another rule list
 	Mixed       string // [valid, null]
 	NewHandler  func() datasource.PropertyHandler
 	// Decode decides decodability with encoding/json on the wire type and returns the IDs of
@@ -48,6 +51,14 @@ type mod struct {
 }
 
 func sorted(s []string) []string { sort.Strings(s); return s }
+
+// lab identifies a rule by its id AND its complete content (Go syntax of the value: typed map keys, every
+// field), so that "the payload's rules are in force" is about the rules, not their names.
+func lab(id string, rule interface{}) string {
+	h := fnv.New32a()
+	fmt.Fprintf(h, "%#v", rule)
+	return fmt.Sprintf("%s#%08x", id, h.Sum32())
+}
 
 func mods() []*mod {
 	return []*mod{
@@ -121,6 +132,7 @@ func mods() []*mod {
 			Name:  "circuitbreaker",
 			P1:    `[{"id":"c1","resource":"a","strategy":2,"retryTimeoutMs":1000,"minRequestAmount":5,"statIntervalMs":1000,"threshold":3}]`,
 			P2:    `[{"id":"c1","resource":"a","strategy":2,"retryTimeoutMs":1000,"minRequestAmount":5,"statIntervalMs":1000,"threshold":3},{"id":"c2","resource":"b","strategy":0,"retryTimeoutMs":500,"minRequestAmount":2,"statIntervalMs":2000,"statSlidingWindowBucketCount":2,"maxAllowedRtMs":40,"threshold":0.5,"probeNum":2}]`,
+			P1v:   `[{"id":"c1","resource":"a","strategy":2,"retryTimeoutMs":1000,"minRequestAmount":5,"statIntervalMs":1000,"threshold":3,"probeNum":5}]`,
 			P2b:   `[{"id":"c3","resource":"a","strategy":1,"retryTimeoutMs":1000,"statIntervalMs":1000,"threshold":0.3},{"id":"bad","resource":"a","strategy":1,"retryTimeoutMs":0,"statIntervalMs":1000,"threshold":0.3}]`,
 			Mixed: `[{"id":"c1","resource":"a","strategy":2,"retryTimeoutMs":1000,"minRequestAmount":5,"statIntervalMs":1000,"threshold":3},null]`,
 			NewHandler: func() datasource.PropertyHandler {
@@ -134,7 +146,7 @@ func mods() []*mod {
 				ids := []string{}
 				for _, r := range rs {
 					if cb.IsValidRule(r) == nil {
-						ids = append(ids, r.Id)
+						ids = append(ids, lab(r.Id, *r))
 					}
 				}
 				return ids, true
@@ -142,7 +154,7 @@ func mods() []*mod {
 			Get: func() []string {
 				ids := []string{}
 				for _, r := range cb.GetRules() {
-					ids = append(ids, r.Id)
+					ids = append(ids, lab(r.Id, r))
 				}
 				return sorted(ids)
 			},
@@ -155,6 +167,7 @@ func mods() []*mod {
 			Name:  "hotspot",
 			P1:    `[{"id":"h1","resource":"a","metricType":1,"controlBehavior":0,"paramIndex":0,"threshold":5,"burstCount":1,"durationInSec":1,"specificItems":[{"valKind":1,"valStr":"vip","threshold":50},{"valKind":0,"valStr":"7","threshold":9}]}]`,
 			P2:    `[{"id":"h1","resource":"a","metricType":1,"controlBehavior":0,"paramIndex":0,"threshold":5,"burstCount":1,"durationInSec":1,"specificItems":[{"valKind":1,"valStr":"vip","threshold":50},{"valKind":0,"valStr":"7","threshold":9}]},{"id":"h2","resource":"b","metricType":0,"paramIndex":-1,"threshold":2,"specificItems":[{"valKind":2,"valStr":"true","threshold":3},{"valKind":3,"valStr":"1.5","threshold":4}]}]`,
+			P1v:   `[{"id":"h1","resource":"a","metricType":1,"controlBehavior":0,"paramIndex":0,"threshold":5,"burstCount":1,"durationInSec":1,"specificItems":[{"valKind":1,"valStr":"vip","threshold":50},{"valKind":1,"valStr":"7","threshold":9}]}]`,
 			P2b:   `[{"id":"h3","resource":"a","metricType":1,"controlBehavior":1,"paramIndex":1,"threshold":5,"maxQueueingTimeMs":20,"durationInSec":2},{"id":"bad","resource":"a","metricType":1,"threshold":5,"durationInSec":0}]`,
 			Mixed: `[{"id":"h1","resource":"a","metricType":0,"threshold":5},null]`,
 			NewHandler: func() datasource.PropertyHandler {
@@ -172,8 +185,29 @@ func mods() []*mod {
 					}
 					r := &hotspot.Rule{ID: w.ID, Resource: w.Resource, MetricType: w.MetricType, ControlBehavior: w.ControlBehavior, ParamIndex: w.ParamIndex,
 						Threshold: w.Threshold, MaxQueueingTimeMs: w.MaxQueueingTimeMs, BurstCount: w.BurstCount, DurationInSec: w.DurationInSec, ParamsMaxCapacity: w.ParamsMaxCapacity}
+					if len(w.SpecificItems) > 0 {
+						r.SpecificItems = map[interface{}]int64{}
+						for _, it := range w.SpecificItems {
+							switch it.ValKind {
+							case datasource.KindInt:
+								if v, err := strconv.Atoi(it.ValStr); err == nil {
+									r.SpecificItems[v] = it.Threshold
+								}
+							case datasource.KindString:
+								r.SpecificItems[it.ValStr] = it.Threshold
+							case datasource.KindBool:
+								if v, err := strconv.ParseBool(it.ValStr); err == nil {
+									r.SpecificItems[v] = it.Threshold
+								}
+							case datasource.KindFloat64:
+								if v, err := strconv.ParseFloat(it.ValStr, 64); err == nil {
+									r.SpecificItems[v] = it.Threshold
+								}
+							}
+						}
+					}
 					if hotspot.IsValidRule(r) == nil {
-						ids = append(ids, r.ID)
+						ids = append(ids, lab(r.ID, *r))
 					}
 				}
 				return ids, true
@@ -181,7 +215,10 @@ func mods() []*mod {
 			Get: func() []string {
 				ids := []string{}
 				for _, r := range hotspot.GetRules() {
-					ids = append(ids, r.ID)
+					if len(r.SpecificItems) == 0 {
+						r.SpecificItems = nil
+					}
+					ids = append(ids, lab(r.ID, r))
 				}
 				return sorted(ids)
 			},
@@ -328,8 +365,8 @@ func (s *scen) Apply(i int) (string, string) {
 		s.m.Preload()
 		s.preloaded = true
 		// whole-set API load replaces everything
-		s.inForce = []string{"pre"}
-		if got := s.m.Get(); fmt.Sprint(got) != fmt.Sprint(s.inForce) {
+		s.inForce = s.m.Get() // labels carry a content hash; the preload is the harness's own rule "pre"
+		if got := s.inForce; len(got) != 1 || !strings.HasPrefix(got[0], "pre") {
 			return "", fmt.Sprintf("API preload: rules in force %v", got)
 		}
 		return "preloaded", ""
@@ -406,8 +443,12 @@ type replayDoc struct {
 }
 
 func mkScen(m *mod) *scen {
+	ps := []string{m.P1, m.P2, m.P2b, "[]", "", "[null]", m.Mixed, "[1]", `["x"]`, "{}", "null", `[{"resource":5}]`}
+	if m.P1v != "" {
+		ps = append(ps, m.P1v)
+	}
 	return &scen{m: m,
-		payloads: []string{m.P1, m.P2, m.P2b, "[]", "", "[null]", m.Mixed, "[1]", `["x"]`, "{}", "null", `[{"resource":5}]`},
+		payloads: ps,
 		// blank but non-empty payloads (a file holding only a line break) are not JSON: rejected, rules kept
 		prefixes: append(append([]string{"\n", " ", "\t\r\n"}, properPrefixes(m.P2)...), extensions(m.P1, m.P2, "[]")...)}
 }
